@@ -76,6 +76,11 @@ func runC20(r *Run) {
 		c16Worker(r, fn)
 	}
 	r.D.PhiByName = false
+
+	r.Rule("C20.R8")
+	c20UnparsableCopied(r)
+	r.Rule("C20.R9")
+	c20Defaults(r)
 }
 
 // c20Callers: every module function calling callee matches ownerGlob (closure
